@@ -325,6 +325,11 @@ func runC11(c *mon.Ctx) {
 					if i == 3 {
 						in = in[:len(in)*2/3] // an arbitrary subset: ancestors may be missing
 					}
+					if i == 2 && len(in) > 2 {
+						// some events listed more than once: the orderings are over the distinct events
+						in = append(in, in[pr.Intn(len(in))], in[pr.Intn(len(in))])
+						in = shufflePDUs(pr, in)
+					}
 					for _, byAuth := range []bool{true, false} {
 						order := gmsl.TopologicalOrderByPrevEvents
 						name := "by-prev-events"
@@ -387,6 +392,10 @@ func runC11(c *mon.Ctx) {
 						bf.txns[0] = append(bf.txns[0], json.RawMessage(p.JSON()))
 					}
 					bf.txns = bf.txns[:1]
+					if pr.Chance(0.5) && len(a) > 1 {
+						// a server may list an event twice in one response
+						bf.txns[0] = append(bf.txns[0], json.RawMessage(a[pr.Intn(len(a))].JSON()))
+					}
 					var second []json.RawMessage
 					for _, p := range b2 {
 						second = append(second, json.RawMessage(p.JSON()))
